@@ -42,22 +42,30 @@ ASSUMPTIONS = [
     "(client+1)*2**26) (26 bits per client)",
     "allocator tie-breaks use main's random generator, re-seeded per case",
 ]
-MIN_COUNTERS = {'allocs_judged': 100_000, 'none_answers_judged': 10_000,
-                'none_answers_offset_zero': 1000,
-                'none_answers_offset_nonzero': 1000,
-                'frees_judged': 50_000, 'coalescing_frees': 10_000,
-                'blocks_compared': 100_000, 'object_allocs_judged': 10_000,
-                'object_none_answers_judged': 500,
-                'node_ids_judged': 50_000, 'node_id_wraps': 200,
-                'default_group_checks': 50,
-                'model_selftest': 1}
+MIN_COUNTERS = {
+    'quick': {'allocs_judged': 100_000, 'none_answers_judged': 10_000,
+              'none_answers_offset_zero': 1000, 'none_answers_offset_nonzero': 1000,
+              'frees_judged': 50_000, 'coalescing_frees': 10_000,
+              'blocks_compared': 100_000, 'object_allocs_judged': 10_000,
+              'object_none_answers_judged': 500, 'node_ids_judged': 50_000,
+              'node_id_wraps': 200, 'default_group_checks': 50,
+              'model_selftest': 1},
+    'thorough': {'allocs_judged': 5_000_000, 'none_answers_judged': 500_000,
+                 'none_answers_offset_zero': 100_000,
+                 'none_answers_offset_nonzero': 100_000,
+                 'frees_judged': 2_500_000, 'coalescing_frees': 500_000,
+                 'blocks_compared': 5_000_000, 'object_allocs_judged': 250_000,
+                 'object_none_answers_judged': 10_000, 'node_ids_judged': 1_000_000,
+                 'node_id_wraps': 2500, 'default_group_checks': 1000,
+                 'model_selftest': 1},
+}
 
 
 def plan(tier, seed):
     quick = tier == 'quick'
     secs = 35 if quick else 540
     shards = []
-    nd = 120_000 if quick else 3_000_000
+    nd = 100_000 if quick else 3_000_000
     for p, (f, n) in enumerate(split(nd, 6 if quick else 10)):
         shards.append({'name': f'direct{p}', 'mode': 'nrt', 'kind': 'direct',
                        'first_case': f, 'n': n, 'secs': secs,
